@@ -45,6 +45,9 @@ type Config struct {
 	Add map[string]string `json:"add"`
 	// Seams: file -> {"pkg.Func": "replacement expr"} textual call substitution on selector expressions.
 	Seams map[string]map[string]string `json:"seams"`
+	// Override: repo-relative file -> alternative source path (a patched copy); used to test
+	// candidate changes without touching /repo. Non-instrumented overrides are simply overlaid.
+	Override map[string]string `json:"override"`
 	// ExtraImports: file -> import paths to add (for seams).
 	ExtraImports map[string]map[string]string `json:"extra_imports"`
 }
@@ -95,7 +98,11 @@ func Generate(cfg Config) (*Overlay, error) {
 			extraImp:  cfg.ExtraImports[f],
 			label:     f,
 		}
-		out, err := InstrumentFile(src, opt)
+		from := src
+		if o, ok := cfg.Override[f]; ok {
+			from = o
+		}
+		out, err := InstrumentFile(from, opt)
 		if err != nil {
 			return nil, fmt.Errorf("%s: %w", f, err)
 		}
@@ -140,6 +147,11 @@ func Generate(cfg Config) (*Overlay, error) {
 	}
 	for dstRel, src := range cfg.Add {
 		ov.Replace[filepath.Join(cfg.Repo, dstRel)] = src
+	}
+	for rel, src := range cfg.Override {
+		if _, done := ov.Replace[filepath.Join(cfg.Repo, rel)]; !done {
+			ov.Replace[filepath.Join(cfg.Repo, rel)] = src
+		}
 	}
 	b, _ := json.MarshalIndent(ov, "", " ")
 	if err := writeFile(filepath.Join(cfg.Out, "overlay.json"), b); err != nil {
